@@ -26,9 +26,9 @@ ENGINES = [
 
 META = {
     'C09': dict(
-        text="Kernel-checked theorems (lean/XV/Props/C09.lean) about an executable model of the contract pipeline, for EVERY contract program (any deterministic function from the results so far to the next action: Get/Put/Del/range scan with bounds and early stop in several buckets - nested calls share the sandbox -, transfer, event, resource use, fail, error), every step bound, gas price and every committed state satisfying the table invariant (kept by every commit and hence along every history of submissions: commit_wf, submit_wf, reachable_wf): reexec_of_preexec (re-running the request over the reader built from the returned read set reproduces outcome, transfers, events, resource use and write set, and every returned read is current - from C10's replay_step), preexec_writes_read, preexec_verifies_partial + preexec_submits_partial (the transaction assembled from a successful pre-execution passes the whole verification and is committed; hypothesis: no nested call needs more resources than the caller's own use covers - the full statement is refuted on model and code: preexec_verifies_counterexample, known finding nested-call-resources), commit_exact / commit_exact_live / commit_untouched / commit_written (after the commit every key holds the last declared entry for it - declared value or delete mark with version (txid, offset) - every other key keeps value and version; live table likewise), tamper_read_version_rejected, tamper_write_rejected (any declared write set that is not a permutation of the returned one), tamper_transfer_rejected, tamper_event_rejected, reroute_rejected (declared contract transfers must be real outputs, fix e466658), write_unread_rejected, verify_sound (an accepted transaction's own request, whatever it is, re-executed over its declared reads succeeds within the declared limit and yields exactly the declared writes / transfers / events; reads current; fee covers the limit), stale_read_rejected, underpaid_rejected, limit_below_use_rejected, error_call_no_response, failed_call_rejected + failed_call_noop (a call answering status >= 400 is refused whatever it declares, fix e01144a; state unchanged), rejected_noop, refused_dotx_noop (= XV.C05.doTx_fail_noop). Tie: every op line runs on the real Chain.PreExec / SubmitTx / VerifyTx+DoTx and on the model; read sets with versions, write sets, transfers, events, resource use, per-call results and the accept/reject verdict of every mutant are diffed. Impl-side oracle: accepted = pre-executed, state delta == write set exactly (reader + raw ZU/ZD rows, nothing transient stored), transfers effective, definite mutant classes refused (harmless ones accepted) by submission and by a block played on a replica alike, stale reads refused, failed / refused calls leave no trace, a fresh replica replays all blocks to the same state.",
+        text="Kernel-checked theorems (lean/XV/Props/C09.lean) about an executable model of the contract pipeline, for EVERY contract program (any deterministic function from the results so far to the next action: Get/Put/Del/range scan with bounds and early stop in several buckets - nested calls share the sandbox -, transfer, event, resource use, fail, error), every step bound, gas price and every committed state satisfying the table invariant (kept by every commit and hence along every history of submissions: commit_wf, submit_wf, reachable_wf): reexec_of_preexec (re-running the request over the reader built from the returned read set reproduces outcome, transfers, events, resource use and write set, and every returned read is current - from C10's replay_step), preexec_writes_read, preexec_verifies_partial + preexec_submits_partial (the transaction assembled from a successful pre-execution passes the whole verification and is committed; hypothesis: no nested call needs more resources than the caller's own use covers - the full statement is refuted on model and code: preexec_verifies_counterexample, known finding nested-call-resources), commit_exact / commit_exact_live / commit_untouched / commit_written (after the commit every key holds the last declared entry for it - declared value or delete mark with version (txid, offset) - every other key keeps value and version; live table likewise), tamper_read_version_rejected, tamper_write_rejected (any declared write set that is not a permutation of the returned one), tamper_transfer_rejected, tamper_event_rejected, reroute_rejected (declared contract transfers must be real outputs, fix 913f43e), write_unread_rejected, verify_sound (an accepted transaction's own request, whatever it is, re-executed over its declared reads succeeds within the declared limit and yields exactly the declared writes / transfers / events; reads current; fee covers the limit), stale_read_rejected, underpaid_rejected, limit_below_use_rejected, error_call_no_response, failed_call_rejected + failed_call_noop (a call answering status >= 400 is refused whatever it declares, fix fef9b2a; state unchanged), rejected_noop, refused_dotx_noop (= XV.C05.doTx_fail_noop). Tie: every op line runs on the real Chain.PreExec / SubmitTx / VerifyTx+DoTx and on the model; read sets with versions, write sets, transfers, events, resource use, per-call results and the accept/reject verdict of every mutant are diffed. Impl-side oracle: accepted = pre-executed, state delta == write set exactly (reader + raw ZU/ZD rows, nothing transient stored), transfers effective, definite mutant classes refused (harmless ones accepted) by submission and by a block played on a replica alike, stale reads refused, failed / refused calls leave no trace, a fresh replica replays all blocks to the same state.",
         design_ref='DESIGN.md §6 C09',
-        note="Two genuine defects repaired in the repository (fix: e466658 contract transfer re-routing F17, e01144a failed call committed); one known finding kept (nested-call resources of kernel contracts). Partial / not covered: token selection and change (a transfer is (receiver, amount), balance assumed sufficient), reserved contracts and VerifyReservedContractRequests (none configured), wasm/native/evm drivers, multi-dimensional resources, cross-contract permission checks, empty values (XMCache.Put accepts an empty value that xmodel.verifyOutputs later refuses as nil - not reachable with the test contracts), auto-generated (timer) transactions.",
+        note="Two genuine defects repaired in the repository (fix: 913f43e contract transfer re-routing F17, fef9b2a failed call committed); one known finding kept (nested-call resources of kernel contracts). Partial / not covered: token selection and change (a transfer is (receiver, amount), balance assumed sufficient), reserved contracts and VerifyReservedContractRequests (none configured), wasm/native/evm drivers, multi-dimensional resources, cross-contract permission checks, empty values (XMCache.Put accepts an empty value that xmodel.verifyOutputs later refuses as nil - not reachable with the test contracts), auto-generated (timer) transactions.",
         technique='Lean 4 proof over a hand model built on the proved sandbox model (simulation of re-execution for adaptive programs); differential correspondence with the real PreExec / VerifyTx / DoTx / block path including ~20 classes of re-signed mutants; impl-side oracle from state deltas, balances and a replaying replica',
     ),
 }
